@@ -594,11 +594,11 @@ def h_deep(e, kind, repl, ib, bb, ways, ops, props):
 def deep_jobs(tier, props, module):
     out = []
     if tier == "quick":
-        plan = [((0, 0, 2), ["rrrrr", "rwrrw", "wrirr", "rrwwr", "wwRrw"]), ((1, 0, 2), ["rrrr", "wrrw"]), ((0, 1, 2), ["rwrr", "wRrw"]), ((0, 0, 4), ["rrrrr"]), ((0, 0, 1), ["wRrwr", "wrRwr"])]
+        plan = [((0, 0, 2), ["rrrrr", "rwrrw", "wrirr", "rrwwr", "wwRrw"]), ((1, 0, 2), ["rrrr", "wrrw"]), ((0, 1, 2), ["rwrr", "wRrw"]), ((0, 0, 4), ["rrrrr"]), ((0, 0, 1), ["wRrwr", "wrRwr", "iiRrr"]), ((0, 1, 1), ["iRrr"])]
     else:
         import itertools
 
-        all5 = ["".join(t) for t in itertools.product("rw", repeat=5)] + ["rirrr", "wrirr", "rwiwr", "rriwr", "wwRrw", "wRwrr", "rwRwr", "wwRww"]
+        all5 = ["".join(t) for t in itertools.product("rw", repeat=5)] + ["rirrr", "wrirr", "rwiwr", "rriwr", "wwRrw", "wRwrr", "rwRwr", "wwRww", "iiRrr", "iRrwr"]
         plan = [((0, 0, 2), all5 + ["rrrrrr", "rwrrwr", "wrrwrr"]), ((1, 0, 2), ["rrrrr", "wrrwr", "rwrwr"]), ((0, 1, 2), ["rwrrr", "rrrwr"]), ((0, 0, 4), ["rrrrrr", "rwrrwr"]), ((0, 0, 3), ["rrrrr"])]
     for (ib, bb, ways), pats in plan:
         for kind in ("wb", "wt"):
